@@ -34,6 +34,7 @@ import (
 
 	"context"
 	"github.com/google/inverting-proxy/agent/metrics"
+	"github.com/google/inverting-proxy/verifhook"
 )
 
 const (
@@ -397,6 +398,7 @@ func createShimChannel(ctx context.Context, host, shimPath string, rewriteHost b
 			metricHandler.WriteResponseCodeMetric(statusCode)
 			return
 		}
+		verifhook.At("shim.close.loaded")
 		connections.Delete(msg.ID)
 		conn.Close()
 		statusCode := http.StatusOK
@@ -447,6 +449,7 @@ func createShimChannel(ctx context.Context, host, shimPath string, rewriteHost b
 				metricHandler.WriteResponseCodeMetric(statusCode)
 				return
 			}
+			verifhook.At("shim.data.loaded")
 			if err := conn.SendClientMessage(msg.Message, enableWebsocketInjection, injectedHeaders); err != nil {
 				statusCode := http.StatusBadRequest
 				http.Error(w, fmt.Sprintf("attempt to send data on a closed session: %q", msg.ID), statusCode)
@@ -488,6 +491,7 @@ func createShimChannel(ctx context.Context, host, shimPath string, rewriteHost b
 			metricHandler.WriteResponseCodeMetric(statusCode)
 			return
 		}
+		verifhook.At("shim.poll.loaded")
 		serverMsgs, err := conn.ReadServerMessages()
 		if err != nil {
 			statusCode := http.StatusBadRequest
